@@ -124,9 +124,9 @@ Definition m_genc (c : cfg) : meas := MS
             | FMain MStart => ninst c
             | FMain (MExec g) => ninst c - g
             | FGen pc => bz (gen_live pc)
-            | FPool TGen PRun => 1
+            | FPool TGen PRun | FPool TGen PSkipGen => 1     (* a skipped task still owns its CompletionGuard *)
             | _ => 0 end)
-  (fun _ _ => 0) (fun tk => match tk with TGen => 1 | _ => 0 end) (fun e => bz (e_kind e =? 13)).
+  (fun _ _ => 0) (fun tk => match tk with TGen => 1 | _ => 0 end) (fun _ => 0).
 Definition m_nst : meas := MS (fun f => match f with FGen GNStore => 1 | _ => 0 end) (fun _ _ => 0) (fun _ => 0) (fun _ => 0).
 
 Lemma genc_local c t s th ch s1 th1 ch1 site wake :
@@ -186,7 +186,7 @@ Proof.
   assert (0 <= shw (m_genc c) (sh s)).
   { unfold shw. rewrite gatesw_zero by reflexivity. unfold bagw, logw.
     assert (0 <= sumf (fun e => mb (m_genc c) (snd e)) (bag (sh s))) by (apply sumf_nonneg; intros [p []]; cbn; lia).
-    assert (0 <= sumf (me (m_genc c)) (log (sh s))) by (apply sumf_nonneg; intros; apply bz_nonneg). lia. }
+    assert (0 <= sumf (me (m_genc c)) (log (sh s))) by (apply sumf_nonneg; intros; cbn; lia). lia. }
   assert (FN : forall th', In th' (threads s) -> forall f', In f' (stack th') -> 0 <= mf (m_genc c) f').
   { intros th' Ht f' Hf. rewrite Forall_forall in WT. specialize (WT th' Ht). unfold wf_thread in WT. rewrite Forall_forall in WT.
     specialize (WT f' Hf). destruct f'; cbn; try lia; [destruct pc; cbn in *; lia | apply bz_nonneg | destruct tk; try lia; destruct pc; lia]. }
